@@ -60,6 +60,9 @@ Definition umod (a b : nat) : res nat := if b =? 0 then Panic DivZero else Ok (a
    join() return Err, which unwrap() turns into a panic of the joining thread *)
 Definition join_unwrap {X} (h : res X) : res X := match h with Ok x => Ok x | Panic _ => Panic Unwrap end.
 
+(* the value of Vec::pop(): the last element, if any *)
+Definition last_opt {X} (l : list X) : option X := match rev l with [] => None | x :: _ => Some x end.
+
 (* Option::unwrap / Result::unwrap *)
 Definition unwrap_opt {X} (o : option X) : res X :=
   match o with Some x => Ok x | None => Panic Unwrap end.
